@@ -177,7 +177,7 @@ func runC01(r *mc.Run) {
 		maxN = 5
 	}
 	r.Bounds["max_voters"] = maxN
-	r.Rule = "for each group size n: every subset of the position alphabet {0..n-1} u {n,n+1,63,64,255} as bitmap (minimal 8-byte-multiple encoding, plus longer encodings for the in-range marks) x every subset of members that signed, delivered through the application's MsgServiceRouter handler of MsgNewBlockHashes; NewPubkey and NewConsolidation: the same full product for n <= 2, accepting class + rejecting representatives above; every single-field perturbation of the signing context on the accepting case of each kind; odd bitmap lengths; Threshold() vs integer ceil for n in [0,255]"
+	r.Rule = "for each group size n: every subset of the position alphabet {0..n-1} u {n,n+1,63,64,255} as bitmap (minimal 8-byte-multiple encoding, plus longer encodings for the in-range marks) x every subset of members that signed, delivered through the application's MsgServiceRouter handler of MsgNewBlockHashes; NewPubkey and NewConsolidation: the same full product for n <= 2, accepting class + rejecting representatives above; every single-field perturbation of the signing context on the accepting case of each kind; odd bitmap lengths; Threshold() vs integer ceil for n in [0,255]; payload binding: for every voted kind (block-hash lists of 1, 2, 15, 16 hashes, new key, consolidation, process with 1 and 2 ids, replace) every single-field mutation of the payload (each byte of each byte field in two bits, lengths +-1, integers +-1 / high bits, list edits) delivered with the unchanged genuine vote must be rejected"
 	r.Assumptions = []string{"BLS12-381 aggregate signatures are unforgeable (trusted)", "MsgProcessWithdrawal/MsgReplaceWithdrawal quorum cases are exercised in C05's per-state ill-formed variants"}
 
 	// Threshold() for the whole domain
@@ -337,10 +337,22 @@ func runC01(r *mc.Run) {
 		}
 	}
 	c01Delivery(r)
+	c01Binding(r)
 	_ = bits.Len
 }
 
 func replayC01(detail json.RawMessage) (bool, string) {
+	var probe struct {
+		Voters *int `json:"n_voters"`
+	}
+	_ = json.Unmarshal(detail, &probe)
+	if probe.Voters == nil {
+		var d c01BindDetail
+		if err := json.Unmarshal(detail, &d); err != nil {
+			return false, err.Error()
+		}
+		return replayC01Bind(d)
+	}
 	var c c01Case
 	if err := json.Unmarshal(detail, &c); err != nil {
 		return false, err.Error()
